@@ -46,7 +46,7 @@ def gen_script(rng, pv):
         steps.append(('comp', rng.choice([0, 1, 64, 256, 2 ** 31 - 1])))
     if pv >= 385:
         for _ in range(rng.choice([0, 0, 1, 2, 4])):
-            steps.append(('plugin', rng.randrange(2 ** 31), rng.choice(['minecraft:brand', 'x:y']), bytes(rng.randrange(256) for _ in range(rng.randrange(0, 20)))))
+            steps.append(('plugin', rng.randrange(2 ** 31), rng.choice(['minecraft:brand', 'x:y']), rng.choice([b'EXACT', bytes(rng.randrange(256) for _ in range(rng.randrange(0, 20)))])))
     rng.shuffle(steps)
     if rng.random() < 0.7:
         steps.append(('success',))
@@ -81,7 +81,12 @@ def build_server(ids, steps):
             out.append(proto.frame(ids.set_compression, proto.varint(st[1]), thr))
             thr = st[1]
         elif st[0] == 'plugin':
-            out.append(proto.frame(ids.plugin_request, proto.varint(st[1]) + proto.string(st[2]) + st[3], thr))
+            data = st[3]
+            if data == b'EXACT':
+                # a packet whose uncompressed size is exactly the threshold: a vanilla server sends it compressed
+                base = len(proto.varint(ids.plugin_request) + proto.varint(st[1]) + proto.string(st[2]))
+                data = bytes((i * 5 + 1) % 256 for i in range(max(0, (thr or 0) - base))) if (thr or 0) <= 4096 else b'exact'
+            out.append(proto.frame(ids.plugin_request, proto.varint(st[1]) + proto.string(st[2]) + data, thr))
         elif st[0] == 'success':
             out.append(proto.frame(ids.login_success, ids.b_login_success(), thr))
         elif st[0] == 'ka':
@@ -113,7 +118,7 @@ def run(chk):
     from minecraft.networking.packets import Packet
     from minecraft.exceptions import LoginDisconnect, VersionMismatch
     rng, th = chk.rng, chk.tier == 'thorough'
-    versions = [340, 384, 385, 390, 391, 404, 498, 578, 706, 707, 735, 754, 757]
+    versions = [47, 107, 210, 340, 384, 385, 390, 391, 404, 498, 578, 706, 707, 735, 754, 757]
     plan = []
     for _ in range(1500 if th else 260):
         pv = rng.choice(versions)
